@@ -11,7 +11,7 @@ import numpy as np
 
 from .base_classes import Shape3D
 from .convex_polyhedron import ConvexPolyhedron
-from .utils import _hoomd_dict_mapping, _map_dict_keys
+from .utils import _hoomd_dict_mapping, _map_dict_keys, _own_scalar
 
 
 class ConvexSpheropolyhedron(Shape3D):
@@ -143,7 +143,7 @@ class ConvexSpheropolyhedron(Shape3D):
     @radius.setter
     def radius(self, value):
         if value >= 0:
-            self._radius = value
+            self._radius = _own_scalar(value)
         else:
             raise ValueError("Rounding radius must be greater than or equal to zero.")
 
